@@ -191,6 +191,19 @@ def place_near(recs, name, rng, anchor=None, dist_A=None, chain="L", resnum=900,
 ALL_LIGAND_TYPES = sorted({t for (_, _, e) in FRAGMENTS.values() for t in e.values()})
 
 
+def split_over_two_residues(frag, resnum2):
+    """A ligand deposited as two linked hetero residues: the second half of its records gets another residue
+    number (same chain and residue name) - groups a few bonds apart then sit in different residues."""
+    out = []
+    half = len(frag) // 2
+    for i, r in enumerate(frag):
+        r = r.copy()
+        if i >= half:
+            r.resnum = resnum2
+        out.append(r)
+    return out
+
+
 def polyamine(n):
     """Linear polyamine N-(C-C-N)_(n-1) in a planar zig-zag: n covalently coupled amine groups."""
     atoms = []
